@@ -63,6 +63,31 @@ CLAIMED = {
              design="8/C16", note=NOTE + "Relies on the fix commit that introduced the two specific error kinds.",
              technique="Coq proof (case analysis of the error paths, provenance invariant of the value analysis) + differential correspondence"),
 
+ "C04": dict(text="No spurious diagnostics: Coq theorem C04_every_diagnostic_is_due proves for every annotated graph that each of the eleven lints' "
+                  "diagnostics is DUE: its trigger condition (LintSpec.trig, stated over the liveness/value facts and register-class tables) holds at "
+                  "the reported node - so a program whose facts meet no trigger gets none; C04_clean_facts_no_diags proves that facts meeting the "
+                  "convention-level cleanliness conditions give an empty report. Tied to lints/*.rs and manager.rs by comparing the full diagnostic "
+                  "list (kind, location, related) of implementation and model. The property itself is explored on programs generated "
+                  "conforming-by-construction (any call graph incl. recursion, wrappers, nested branches/loops, frames, saved registers, random "
+                  "spelling/layout), each confirmed by a concrete run under a convention monitor, which must get zero diagnostics.",
+             design="8/C04", note=NOTE + "The step 'a convention-conforming program has clean facts' is not a theorem (it needs a semantic definition of conformance "
+                  "over executions); it is covered by the monitored generator.",
+             technique="Coq proof (each diagnostic implies its trigger) + differential correspondence + monitored conforming-program generator"),
+ "C05": dict(text="Violations are reported where they occur: Coq theorems prove for every annotated graph that each node meeting a lint's trigger "
+                  "condition is reported by that lint at that node's location (C05_triggers_are_reported), that the stack lint reports the first node with a "
+                  "bad stack position, and that the use-after-call / use-before-assignment searches report the FIRST reads of the offending register "
+                  "reachable without redefinition (breadth-first levels). Tied to lints/*.rs and graph.rs::error_ranges_for_first_usage by comparing the "
+                  "diagnostic lists; the checker injects one violation of each kind (incl. read-modify-write first uses) into conforming programs and "
+                  "requires the diagnostic of that kind on the injected line.",
+             design="8/C05", note=NOTE + "Completeness is relative to the trigger conditions of LintSpec (over analysis facts); that the facts reflect executions is C01/C02.",
+             technique="Coq proof (trigger implies report, first-use search correctness) + differential correspondence + violation injection"),
+ "C19": dict(text="Serialized facts round-trip: Coq theorems prove for EVERY abstract value, memory location, register set and per-node fact record that the "
+                  "model of the serde encoders followed by the decoders returns the original (aval/memloc/regset/facts round trips), including the "
+                  "distinct tags of all value kinds. Tied to the Serialize/Deserialize impls (available_value.rs, memory_location.rs, register_set.rs, "
+                  "node wrappers) by comparing the YAML/JSON produced by the implementation for whole analysed graphs with the model's, and by a "
+                  "serialize-deserialize-compare run on the implementation alone (this found the duplicate ValueInCsr tag, fixed).",
+             design="8/C19", note=NOTE + "The `node` field (parser node serialization) is compared differentially, not modelled in the round-trip theorems; serde_yaml/serde_json themselves are trusted.",
+             technique="Coq proof (codec round trip) + differential correspondence against serde output"),
  "C01": dict(text="Value analysis soundness: Coq theorem C01_claims_hold_on_executions proves, over an RV32IM machine written from the ISA (arithmetic = the "
                   "FoldSpec of C08, byte-addressed little-endian memory, calls summarised by the calling convention, ecalls by the RARS table), that for ANY "
                   "graph whose facts satisfy the analysis equations and any execution of any length from an entry node inside the supported subset, every "
